@@ -35,6 +35,34 @@ def cps(s: str):
     return [ord(c) for c in s]
 
 
+# compact nodes, so that very deep / long / wide values stay small in transport and never make the
+# harness itself recurse deeply (the same functions produce them for the case and for what a decoder
+# returned, so equal values have equal transport forms):
+#   {"nest": [levels, T]}   a chain of >= NEST_MIN single-member containers around T, outermost first;
+#                           a level is 0 (array) or the member's key (object)
+#   {"srep": [unit, n]}     the string unit * n (strings of >= LONG characters that are a repetition);
+#                           also allowed as an object key
+#   {"arange": n}           [0, 1, …, n-1]           (n >= LONG)
+#   {"orange": n}           {"k0": 0, …, "k<n-1>": n-1}   (n >= LONG)
+NEST_MIN = 64
+LONG = 4096
+
+
+def key_str(k) -> str:
+    if isinstance(k, dict):
+        unit, n = k["srep"]
+        return "".join(map(chr, unit)) * n
+    return "".join(map(chr, k))
+
+
+def _str_t(v: str):
+    if len(v) >= LONG:
+        for u in range(1, 17):
+            if len(v) % u == 0 and v == v[:u] * (len(v) // u):
+                return {"srep": [[ord(c) for c in v[:u]], len(v) // u]}
+    return [ord(c) for c in v]
+
+
 def to_py(t):
     if t is None or t is True or t is False:
         return t
@@ -43,11 +71,21 @@ def to_py(t):
     if "f" in t:
         return float.fromhex(t["f"])
     if "s" in t:
-        return "".join(map(chr, t["s"]))
+        return key_str(t["s"])
     if "a" in t:
         return [to_py(x) for x in t["a"]]
     if "o" in t:
-        return {"".join(map(chr, k)): to_py(v) for k, v in t["o"]}
+        return {key_str(k): to_py(v) for k, v in t["o"]}
+    if "nest" in t:
+        levels, inner = t["nest"]
+        v = to_py(inner)
+        for lv in reversed(levels):
+            v = [v] if lv == 0 else {key_str(lv): v}
+        return v
+    if "arange" in t:
+        return list(range(t["arange"]))
+    if "orange" in t:
+        return {f"k{i}": i for i in range(t["orange"])}
     raise ValueError(f"bad transport value {t!r}")
 
 
@@ -59,28 +97,46 @@ def of_py(v):
     if isinstance(v, float):
         return {"f": v.hex()}
     if isinstance(v, str):
-        return {"s": [ord(c) for c in v]}
+        return {"s": _str_t(v)}
+    if isinstance(v, (list, tuple, dict)) and len(v) == 1:
+        levels, cur = [], v
+        while isinstance(cur, (list, tuple, dict)) and len(cur) == 1:
+            if isinstance(cur, dict):
+                (k, cur), = cur.items()
+                if not isinstance(k, str):
+                    raise TypeError(f"non-string key {k!r}")
+                levels.append(_str_t(k))
+            else:
+                levels.append(0)
+                cur = cur[0]
+        if len(levels) >= NEST_MIN:
+            return {"nest": [levels, of_py(cur)]}
     if isinstance(v, (list, tuple)):
+        if len(v) >= LONG and all(type(x) is int and x == i for i, x in enumerate(v)):
+            return {"arange": len(v)}
         return {"a": [of_py(x) for x in v]}
     if isinstance(v, dict):
+        if len(v) >= LONG and all(type(x) is int and k == f"k{x}" and x == i for i, (k, x) in enumerate(v.items())):
+            return {"orange": len(v)}
         out = []
         for k, x in v.items():
             if not isinstance(k, str):
                 raise TypeError(f"non-string key {k!r}")
-            out.append([[ord(c) for c in k], of_py(x)])
+            out.append([_str_t(k), of_py(x)])
         return {"o": out}
     raise TypeError(f"not a JSON value: {type(v).__name__}")
 
 
 def floats_of(v):
-    if isinstance(v, float):
-        yield v
-    elif isinstance(v, list):
-        for x in v:
-            yield from floats_of(x)
-    elif isinstance(v, dict):
-        for x in v.values():
-            yield from floats_of(x)
+    stack = [v]
+    while stack:
+        x = stack.pop()
+        if isinstance(x, float):
+            yield x
+        elif isinstance(x, list):
+            stack.extend(reversed(x))
+        elif isinstance(x, dict):
+            stack.extend(reversed(list(x.values())))
 
 
 def walk(t):
@@ -92,6 +148,21 @@ def walk(t):
         elif "o" in t:
             for _, x in t["o"]:
                 yield from walk(x)
+        elif "nest" in t:
+            yield from walk(t["nest"][1])
+
+
+def is_compact(t) -> bool:
+    """does the value use a compact node (very deep / long / wide)?"""
+    for x in walk(t):
+        if isinstance(x, dict):
+            if "nest" in x or "arange" in x or "orange" in x:
+                return True
+            if "s" in x and isinstance(x["s"], dict):
+                return True
+            if "o" in x and any(isinstance(k, dict) for k, _ in x["o"]):
+                return True
+    return False
 
 
 def fits64(t) -> bool:
@@ -103,17 +174,29 @@ def depth(t) -> int:
         return 1 + max([depth(x) for x in t["a"]], default=1)
     if isinstance(t, dict) and "o" in t:
         return 1 + max([depth(x) for _, x in t["o"]], default=1)
+    if isinstance(t, dict) and "nest" in t:
+        return len(t["nest"][0]) + depth(t["nest"][1])
+    if isinstance(t, dict) and ("arange" in t or "orange" in t):
+        return 2
     return 1
+
+
+def _key_cps(k):
+    return k["srep"][0] if isinstance(k, dict) else k
 
 
 def all_cps(t):
     for x in walk(t):
         if isinstance(x, dict):
             if "s" in x:
-                yield from x["s"]
+                yield from _key_cps(x["s"])
             elif "o" in x:
                 for k, _ in x["o"]:
-                    yield from k
+                    yield from _key_cps(k)
+            elif "nest" in x:
+                for lv in x["nest"][0]:
+                    if lv != 0:
+                        yield from _key_cps(lv)
 
 
 def unordered(t):
@@ -123,8 +206,14 @@ def unordered(t):
         if "a" in t:
             return {"a": [unordered(x) for x in t["a"]]}
         if "o" in t:
-            return {"o": sorted(([k, unordered(v)] for k, v in t["o"]), key=lambda kv: kv[0])}
+            return {"o": sorted(([k, unordered(v)] for k, v in t["o"]), key=lambda kv: canon_key(kv[0]))}
+        if "nest" in t:
+            return {"nest": [t["nest"][0], unordered(t["nest"][1])]}
     return t
+
+
+def canon_key(k):
+    return (1, k["srep"][0], k["srep"][1]) if isinstance(k, dict) else (0, k, 0)
 
 
 def with_tokens(t, tokens):
@@ -136,6 +225,8 @@ def with_tokens(t, tokens):
             return {"a": [with_tokens(x, tokens) for x in t["a"]]}
         if "o" in t:
             return {"o": [[k, with_tokens(v, tokens)] for k, v in t["o"]]}
+        if "nest" in t:
+            return {"nest": [t["nest"][0], with_tokens(t["nest"][1], tokens)]}
     return t
 
 
@@ -333,6 +424,46 @@ def exhaustive(leaves, keys, max_depth, max_len):
     return [v for lvl in levels for v in lvl]
 
 
+DEPTHS = [1023, 1024, 1025, 1100, 1400, 2000]
+
+
+def chain(kind, d, inner, key="k"):
+    """`inner` wrapped in d single-member containers (arrays, objects, alternating), in transport form"""
+    if kind == "arr":
+        levels = [0] * d
+    elif kind == "obj":
+        levels = [cps(key)] * d
+    else:
+        levels = [(0 if i % 2 else cps(key)) for i in range(d)]
+    return {"nest": [levels, inner]} if d >= NEST_MIN else of_py(to_py({"nest": [levels, inner]}))
+
+
+def directed_limits(max_depth):
+    """values at the places where the two backends' own limits differ and the library's fall-back hides it:
+    nesting depth around orjson's 1024 (only depths <= max_depth, the deepest nesting the unmodified library
+    handles in BOTH configurations on this interpreter, measured at run time), 1 MiB strings and keys,
+    100k-member containers"""
+    out = []
+    for d in DEPTHS:
+        if d > max_depth:
+            continue
+        for kind in ("arr", "obj", "alt"):
+            out.append((f"deep{d}", chain(kind, d, {"i": 2 ** 64 - 1})))
+            out.append((f"deep{d}", {"o": [[cps("p"), {"a": [{"i": 0}, chain(kind, d - 2, {"s": cps("é")}, key="é\n")]}]]}))
+    for d in (255, 256, 700):  # around orjson's encoder limit (the library falls back to the stdlib encoder)
+        if d <= max_depth:
+            out.append((f"deep{d}", chain("alt", d, None)))
+    mib = 1 << 20
+    out.append(("long-string", of_py("a" * mib)))
+    out.append(("long-string", of_py("a\n\u2028\U0001F600\"\\é\x00" * (mib // 8))))
+    out.append(("long-key", of_py({"k" * mib: 1})))
+    out.append(("long-key", of_py({"é\U0001F600" * (mib // 2): ["\x7f" * LONG]})))
+    out.append(("wide", of_py(list(range(100_000)))))
+    out.append(("wide", of_py({f"k{i}": i for i in range(100_000)})))
+    out.append(("wide", of_py({"w": [list(range(100_000)), {f"k{i}": i for i in range(LONG)}]})))
+    return out
+
+
 def directed():
     out = []
     for c in SPECIAL_CPS:
@@ -373,6 +504,32 @@ def shrink_value(t):
         return
     if t is True or t is False:
         yield None
+        return
+    if "nest" in t:
+        levels, inner = t["nest"]
+        yield inner
+        n = len(levels)
+        for m in sorted({n // 2, n - 100, n - 10, n - 1}):
+            if 0 < m < n:
+                yield of_py(to_py({"nest": [levels[:m], inner]}))  # normal form below NEST_MIN
+        if any(lv != 0 for lv in levels):
+            yield {"nest": [[0] * n, inner]}
+        for y in shrink_value(inner):
+            yield {"nest": [levels, y]}
+        return
+    if "arange" in t or "orange" in t:
+        k = "arange" if "arange" in t else "orange"
+        for m in (t[k] // 2, t[k] - 1):
+            if m >= 1:
+                yield of_py(to_py({k: m}))
+        return
+    if "s" in t and isinstance(t["s"], dict):
+        unit, n = t["s"]["srep"]
+        for m in (n // 2, n - 1):
+            if m >= 1:
+                yield of_py("".join(map(chr, unit)) * m)
+        if len(unit) > 1:
+            yield of_py(chr(unit[0]) * (n * len(unit)))
         return
     if "i" in t:
         i = t["i"]
